@@ -2,6 +2,7 @@ package sx
 
 import (
 	"fmt"
+	"math/rand"
 	"os"
 	"sort"
 	"strings"
@@ -58,6 +59,7 @@ type Explorer struct {
 	MaxPaths  int
 	Deadline  time.Time
 	MaxViolations int
+	Seed      int
 }
 
 func (e *Explorer) Run() *Report {
@@ -70,6 +72,9 @@ func (e *Explorer) Run() *Report {
 	busy := 0
 	stop := false
 	seenViol := map[string]bool{}
+	const sampleK = 3
+	doneSeen := 0
+	rng := rand.New(rand.NewSource(int64(e.Seed) + 1))
 	if e.MaxViolations == 0 {
 		e.MaxViolations = 6
 	}
@@ -123,7 +128,17 @@ func (e *Explorer) Run() *Report {
 				res := it.Run(e.Entry)
 				var sample map[string]any
 				mu.Lock()
-				needSample := len(rep.Samples) < 3 && res.End.Kind == "done"
+				needSample := false
+				slot := -1
+				if res.End.Kind == "done" && len(res.Violations) == 0 {
+					doneSeen++
+					if len(rep.Samples) < sampleK {
+						needSample = true
+					} else if rng.Intn(doneSeen) < sampleK {
+						needSample = true
+						slot = rng.Intn(sampleK)
+					}
+				}
 				mu.Unlock()
 				if needSample {
 					sample = it.samplePath(res)
@@ -196,8 +211,12 @@ func (e *Explorer) Run() *Report {
 						rep.Violations = append(rep.Violations, v)
 					}
 				}
-				if sample != nil && len(rep.Samples) < 3 {
-					rep.Samples = append(rep.Samples, sample)
+				if sample != nil {
+					if len(rep.Samples) < sampleK {
+						rep.Samples = append(rep.Samples, sample)
+					} else if slot >= 0 {
+						rep.Samples[slot] = sample
+					}
 				}
 				work = append(work, res.NewWork...)
 				if e.MaxPaths > 0 && rep.Paths >= e.MaxPaths {
@@ -270,6 +289,12 @@ func (it *Interp) samplePath(res *PathResult) map[string]any {
 	if len(res.Facts) > 0 {
 		m["facts"] = res.Facts
 	}
+	ch := map[string]int64{}
+	for k, v := range it.choices {
+		ch[k] = v
+	}
+	m["choices"] = ch
+	m["trace_full"] = append([]string{}, res.Trace...)
 	tr := res.Trace
 	if len(tr) > 40 {
 		tr = tr[:40]
@@ -277,5 +302,11 @@ func (it *Interp) samplePath(res *PathResult) map[string]any {
 	if len(tr) > 0 {
 		m["events"] = tr
 	}
+	var reached []string
+	for k := range res.Reached {
+		reached = append(reached, k)
+	}
+	sort.Strings(reached)
+	m["witnesses_reached"] = reached
 	return m
 }
